@@ -141,7 +141,7 @@ def int_binop(eng, op, a, b, st):
             if ok is not None:
                 out.append((ok, VInt(pow2(b))))
             if bad is not None:
-                raise OutOfReach('2 ** negative (float result)')
+                out.extend(eng.raise_(bad, 'Unmodelled', origin='2 ** negative (float result)'))
             return out
         raise OutOfReach('general **')
     if isinstance(op, ast.Div):
